@@ -20,7 +20,6 @@ import (
 	"math"
 	"math/rand"
 	"sort"
-	"time"
 )
 
 const (
@@ -58,12 +57,14 @@ const (
 )
 
 func RandBytes(n int) []byte {
-	source := rand.NewSource(time.Now().UnixNano())
+	// one process-wide source (math/rand's, seeded at program start and safe for concurrent use):
+	// a source seeded from the clock on every call repeats itself whenever two calls read the
+	// same clock value, and the builders draw every id from here
 	b := make([]byte, n)
-	// A src.Int63() generates 63 random bits, enough for letterIdxMax characters!
-	for i, cache, remain := n-1, source.Int63(), letterIdxMax; i >= 0; {
+	// A rand.Int63() generates 63 random bits, enough for letterIdxMax characters!
+	for i, cache, remain := n-1, rand.Int63(), letterIdxMax; i >= 0; {
 		if remain == 0 {
-			cache, remain = source.Int63(), letterIdxMax
+			cache, remain = rand.Int63(), letterIdxMax
 		}
 		if idx := int(cache & letterIdxMask); idx < len(letterBytes) {
 			b[i] = letterBytes[idx]
